@@ -190,6 +190,8 @@ def r18_5(rep, M, rid):
                           "branch for explicit positions with the string 'cm'", M.where(FQ, t))
     # the reference point is computed on the wrapped working copy
     arg = com[0].args[0] if com[0].args else None
+    if isinstance(arg, ast.Call) and isinstance(arg.func, ast.Attribute) and arg.func.attr == "copy" and not arg.args and isinstance(arg.func.value, ast.Name):
+        arg = arg.func.value      # a copy of the working copy is as good as the working copy
     inp = M.params(FQ)[0]
     if isinstance(arg, ast.Name) and arg.id != inp and inp in fl.slice(arg, fl.node_of(com[0]))["params"]:
         rep.ok(rid, f"classify: the centre of mass is that of the working copy `{arg.id}`")
